@@ -136,9 +136,13 @@ func (tpl *Template) newContextForExecution(context Context) (*Template, *Execut
 				return parent, nil, err
 			}
 
-			// Check for clashes with macro names
+			// Check for clashes with macro names (of the executed template and
+			// of the templates it extends: their macros are defined as well)
 			for k := range newContext {
 				_, has := tpl.exportedMacros[k]
+				for t := tpl.parent; t != nil && !has; t = t.parent {
+					_, has = t.exportedMacros[k]
+				}
 				if has {
 					return parent, nil, &Error{
 						Filename:  tpl.name,
